@@ -153,6 +153,7 @@ let run_case ~(v0 : bool) (c : case) =
     | ["esize"; s] -> esize := int_of_string s
     | "arr" :: ks -> keys := !keys @ L.map int_of_string ks
     | ["vcap"; _] -> ()
+    | ["swapmode"; _] -> ()  (* the driver's swap callback works in place and gets no scratch: same exchanges *)
     | ["cmpmode"; _] -> ()   (* magnitude of the C callback's results: the model only sees signs *)
     | "rawswap" :: ws ->
       let r = rawswap ws in
